@@ -755,6 +755,26 @@ func (e *specEnv) callExpr(k *ast.CallExpr) Val {
 		if sf := e.lookupSpecFunc(id.Name); sf != nil {
 			return e.callSpecFunc(sf, k.Args)
 		}
+		// a real, loop-free function of the package used as a pure function
+		if pkg := e.pkg(); pkg != nil {
+			if fo, ok := pkg.Scope().Lookup(id.Name).(*types.Func); ok {
+				if fn := c.prog.SSA.FuncValue(fo); fn != nil && len(fn.Blocks) > 0 && !hasLoops(fn) && len(fn.Params) == len(k.Args) {
+					var avs []Val
+					for i, a := range k.Args {
+						avs = append(avs, e.fit(e.expr(a), fn.Params[i].Type()))
+					}
+					g := c.newFrame(fn, nil, e.f)
+					_, res, _ := g.run(True, e.state().clone(), avs)
+					if len(res) == 1 {
+						return res[0]
+					}
+					if len(res) > 1 {
+						return Val{Tuple: res}
+					}
+					e.fail("function %s returns nothing", id.Name)
+				}
+			}
+		}
 		// conversion to a named/basic type?
 		if t := c.evalType(id.Name, e.pkg()); t != nil && len(k.Args) == 1 {
 			return e.convertTo(e.expr(k.Args[0]), t)
